@@ -264,8 +264,11 @@ func (vm *VM) callNative(fn *NativeFunction, numVariadic int8, shift StackShift,
 		panic(errNilPointer)
 	}
 
-	// Make a copy of the frame pointer.
+	// Make a copy of the frame pointer and restore it when the function
+	// returns or panics: if it panics, the frame pointer is used to classify
+	// the panic and to finalize the results of the caller.
 	fp := vm.fp
+	defer func() { vm.fp = fp }()
 
 	// Shift the frame pointer.
 	vm.fp[0] += Addr(shift[0])
@@ -306,7 +309,6 @@ func (vm *VM) callNative(fn *NativeFunction, numVariadic int8, shift StackShift,
 				panic("unexpected")
 			}
 		}
-		vm.fp = fp
 		return
 	}
 
@@ -436,9 +438,6 @@ func (vm *VM) callNative(fn *NativeFunction, numVariadic int8, shift StackShift,
 
 	}
 
-	vm.fp = fp // Restore the frame pointer.
-
-	return
 }
 
 // equals reports whether x and y are equal.
